@@ -23,6 +23,29 @@ use serde::{
 };
 use std::{borrow::Borrow, hash::Hash};
 
+#[cfg(feature = "verif")]
+pub mod verif;
+
+/// Verification yield point; expands to nothing unless the *calling* crate is
+/// built with its `verif` feature.
+#[macro_export]
+macro_rules! verif_point {
+    ($tag:expr) => {
+        #[cfg(feature = "verif")]
+        $crate::verif::point($tag);
+    };
+}
+
+/// Verification visible wait; expands to nothing unless the *calling* crate is
+/// built with its `verif` feature.
+#[macro_export]
+macro_rules! verif_wait {
+    ($tag:expr, $pred:expr) => {
+        #[cfg(feature = "verif")]
+        $crate::verif::wait_until($tag, &$pred);
+    };
+}
+
 /// A trait for functional-style method chaining.
 ///
 /// Allows any value to be passed through a function, enabling
